@@ -146,13 +146,31 @@ def loss_entries(rng, dtypes):
         W = linop.Diagonal(jnp.asarray(np.abs(common.dyadic(rng, (n,), bits=3, scale=2.0)).astype(rdt)))
         lam = jnp.asarray(0.5, dtype=rdt)
 
+        def loss_hist(x, lam, prox, grad):
+            # history stream of a loss: the same object with other points / proximal parameters, and rescaled
+            # copies of it (same class, same shapes, other scale) evaluated before the probe
+            def hist(o):
+                steps = [lambda: o(2 * x + 1), lambda: (3.0 * o)(x), lambda: (o / 4.0)(2 * x + 1)]
+                if grad:
+                    steps += [lambda: o.grad(2 * x + 1), lambda: (3.0 * o).grad(x)]
+                if prox:
+                    steps += [lambda: o.prox(2 * x + 1, 2.5 * lam), lambda: (3.0 * o).prox(x, lam), lambda: o.prox(x, 0.25 * lam)]
+                for st in steps:
+                    try:
+                        st()
+                    except Exception:  # noqa: BLE001
+                        pass
+
+            return hist
+
         def E(name, mk, prox=True, grad=True, rtol=None):
             calls = [("eval", lambda o: (lambda a: o(a)), (x,))]
             if grad:
                 calls.append(("grad", lambda o: (lambda a: o.grad(a)), (x,)))
             if prox:
                 calls.append(("prox", lambda o: (lambda a, l: o.prox(a, l)), (x, lam)))
-            ents.append(Entry(f"{name}/{np.dtype(dt).name}", "loss", lambda jit, mk=mk: mk(), calls, None, False, rtol or _rtol(dt), np.dtype(dt).name))
+            ents.append(Entry(f"{name}/{np.dtype(dt).name}", "loss", lambda jit, mk=mk: mk(), calls, loss_hist(x, lam, prox, grad), False,
+                              rtol or _rtol(dt), np.dtype(dt).name))
 
         E("SquaredL2Loss(I)", lambda: loss.SquaredL2Loss(y=y, scale=0.75))
         E("SquaredL2Loss(Diag,W)", lambda: loss.SquaredL2Loss(y=y, A=linop.Diagonal(d), W=W))
@@ -163,7 +181,8 @@ def loss_entries(rng, dtypes):
             yp = jnp.abs(y) + 1.0
             xp = jnp.abs(x) + 0.5
             ents.append(Entry(f"PoissonLoss/{np.dtype(dt).name}", "loss", lambda jit, yp=yp: loss.PoissonLoss(y=yp, scale=0.5),
-                              [("eval", lambda o: (lambda a: o(a)), (xp,)), ("grad", lambda o: (lambda a: o.grad(a)), (xp,))], None, False, _rtol(dt), np.dtype(dt).name))
+                              [("eval", lambda o: (lambda a: o(a)), (xp,)), ("grad", lambda o: (lambda a: o.grad(a)), (xp,))],
+                              loss_hist(xp, lam, False, True), False, _rtol(dt), np.dtype(dt).name))
         ya = jnp.abs(y).astype(rdt) + 0.25
         E("SquaredL2AbsLoss", lambda ya=ya: loss.SquaredL2AbsLoss(y=ya, W=W), grad=False)
         E("SquaredL2SquaredAbsLoss", lambda ya=ya: loss.SquaredL2SquaredAbsLoss(y=ya, W=W), grad=False)
